@@ -963,6 +963,15 @@ int main(int argc, char** argv)
     Display::printText(status_string(grid_t1,0,rotations),false);
     INOVESA_VERIF_POINT("S13");
 
+    /* The renormalization due at step 0 is done here, before anything
+     * is recorded, so that the initial records show the distribution
+     * the first step starts from (the loop skips it for step 0).
+     */
+    if (renormalize > 0) {
+        // works on XProjection (and refreshes it)
+        grid_t1->integrateAndNormalize();
+    }
+
     #if INOVESA_USE_HDF5 == 1
     const auto h5save = opts.getSavePhaseSpace();
     // end of preparation to save results
@@ -1007,7 +1016,8 @@ int main(int argc, char** argv)
      */
     while (simulationstep<laststep && !Display::abort) {
     INOVESA_VERIF_POINT("L0");
-        if (renormalize > 0 && simulationstep%renormalize == 0) {
+        if (renormalize > 0 && simulationstep > 0
+                && simulationstep%renormalize == 0) {
             // works on XProjection (and refreshes it)
             grid_t1->integrateAndNormalize();
         } else {
@@ -1143,7 +1153,8 @@ int main(int argc, char** argv)
          * the last time step might behave slightly different
          * from the ones before.
          */
-        if (renormalize > 0 && simulationstep%renormalize == 0) {
+        if (renormalize > 0 && simulationstep > 0
+                && simulationstep%renormalize == 0) {
             // works on XProjection (and refreshes it)
             grid_t1->integrateAndNormalize();
         } else {
